@@ -18,7 +18,7 @@ CLAIMS = {
 CLAIMS.update({
     "C11": dict(
         text="Static, exact: the full role x variant table of send(), the compile-time Sendable impl matrix (from the compiler's impl tables) and the per-handler status x need_store x offline_publish x QoS state table are extracted from MIR and compared cell by cell with the MQTT role/state tables; refusal paths' write sets are checked to be empty up to id release / undo. Whole statement, exhaustive over the finite matrix.",
-        note=TB + "Role atoms are TypeId comparisons / RoleType consts evaluated by the compiler. Known finding F11 (alias table written before a Receive-Maximum refusal) listed in known_findings.jsonl.",
+        note=TB + "Role atoms are TypeId comparisons / RoleType consts evaluated by the compiler.",
         technique="MIR abstract interpretation: exact decision-table extraction vs transcribed MQTT tables; trait impl table comparison",
         ref="3/C11"),
     "C17": dict(
@@ -65,6 +65,19 @@ CLAIMS.update({
         note=TB + "Uses the frame rule (accessor(mutator(x)) = accessor(x) when read/write field sets are disjoint, computed from MIR).",
         technique="MIR abstract interpretation: counter discipline + guard dominance",
         ref="3/C12"),
+})
+
+CLAIMS.update({
+    "C13": dict(
+        text="Static, structural obligations on all paths: a caller-supplied empty topic is emitted only after a successful send-table lookup; recording a binding is always followed by the emission that carries the topic (no refusal reachable after insert_or_update); automatic substitution uses find_by_topic on the connection's table and only when Connected; receive side looks up or reports TopicAliasInvalid and never delivers on that exit, range check dominates registration; tables are created only in the handshake handlers from a non-zero Topic Alias Maximum. Not decided: LRU order correctness and agreement with an independent receiver model over sequences.",
+        note=TB,
+        technique="MIR abstract interpretation: must-precede / no-refusal-after-binding rules",
+        ref="3/C13"),
+    "C14": dict(
+        text="Static: every v5 emission lies on a path where the size of the very packet value emitted was tested against the peer's limit (value identity makes any growth after the check visible); send_stored filters and releases; only handshake handlers/close write the limits; the receive gate dominates dispatch and answers oversize with DISCONNECT 0x95; the VBI width table is exact. Not decided: that size() equals the encoded size (C02).",
+        note=TB + "Known finding F12 (automatic alias mapping rewrites the packet after the check) listed in known_findings.jsonl.",
+        technique="MIR abstract interpretation: validate-before-emit with value identity",
+        ref="3/C14"),
 })
 
 NOT_APPLICABLE = {
